@@ -60,6 +60,8 @@ def protein_id(rng, n_base=6, decoy_share=0.4, markers_inside=True):
         d = rng.choice(["CON__", "OBSOLETE__", "OBSOLETE__REV__", "CON__REV__", "REV__CON__", "OBSOLETE__CON__"])
     else:
         d = ""
+    if markers_inside and d and rng.random() < 0.06:
+        return d + d + b    # the marker TWICE in one identifier (a decoy of a decoy database, a doubly tagged contaminant)
     if markers_inside and rng.random() < 0.05:
         return b + "_" + d  # marker in the middle/end of the identifier
     if markers_inside and rng.random() < 0.08:
@@ -69,7 +71,9 @@ def protein_id(rng, n_base=6, decoy_share=0.4, markers_inside=True):
 
 
 PEPTIDES = ["PEPTIDEK", "AAAK", "AAAR", "LLLK", "MMMR", "GGGK", "CCCK", "DDDR", "EEEK", "FFFR",
-            "HHHK", "IIIR", "KKKK", "NNNR", "QQQK", "SSSR", "TTTK", "VVVR", "WWWK", "YYYR"]
+            "HHHK", "IIIR", "KKKK", "NNNR", "QQQK", "SSSR", "TTTK", "VVVR", "WWWK", "YYYR",
+            # sequences that differ from one above in an isoleucine / leucine only (isobaric, but DISTINCT peptides of the list)
+            "PEPTLDEK", "LLIK", "ILLK", "LIIR"]
 
 
 def peptide_name(rng, n=20):
